@@ -47,6 +47,8 @@ type c19Hist struct {
 
 func genC19(rng *rand.Rand, c *Case) {
 	c.Cfg["policy"] = rng.Intn(3)
+	// a quarter of the cases make every function entry of the server a scheduling point (races on lock-free shared state)
+	c.Cfg["fnyield"] = rng.Intn(4) / 3
 	c.Cfg["seg_s2c"] = rng.Intn(2)
 	n := 2 + rng.Intn(5)
 	c.Cfg["clients"] = n
